@@ -193,7 +193,7 @@ def build_bridge(obligations):
     return res
 
 
-BRIDGE_IMPORTS = ''
+BRIDGE_IMPORTS = 'From Eudoxia Require Import Model.Shapes Model.Timing.\n'
 
 
 # ----------------------------------------------------------------------------------------------
